@@ -36,7 +36,17 @@ func vSetImmutable(p string, on bool) bool {
 		flags[0] &^= vFsImmutable
 	}
 	_, _, e := syscall.Syscall(syscall.SYS_IOCTL, f.Fd(), vFsIocSetFlags, uintptr(unsafe.Pointer(&flags[0])))
-	return e == 0
+	if e != 0 {
+		return false
+	}
+	if on {
+		// the flag must also be ENFORCED (some file systems accept and ignore it): opening for writing has to fail now
+		if w, err := os.OpenFile(p, os.O_WRONLY, 0); err == nil {
+			w.Close()
+			return false
+		}
+	}
+	return true
 }
 
 func vLockAll(root string, on bool) (n int, ok bool) {
